@@ -8,6 +8,7 @@
  *        PA <raw tree of A>  PB <raw tree of B> (hwv_ptree.h; the model computes PB from PA)
  *        allocseq <n> <size>...                 sizes requested through hwloc_tma_malloc by hwloc__topology_dup(A) (logging tma)
  *        share <field> copied= shared= mismatch= / overlap <fieldA> <fieldB>      sharing pattern of (A,B)
+ *        dupdup same|DIFF                       observation of a duplicate of the duplicate against the original
  *        firstq <family>.<accessor> same|DIFF   each accessor of the lazily refreshed state (memattrs, distances, cpukinds) as the FIRST
  *                                               query on a fresh duplicate, against the original's answer
  *        obscmp same|DIFF ...                   dump+XML+distances+memattrs+cpukinds+infos+support of B against A
@@ -400,6 +401,12 @@ static void do_dup(hwloc_topology_t A, hwloc_topology_t *Bp)
     if (!rc) hwloc_topology_destroy(C);
     free(log.sizes); free(log.ptrs);
   }
+  { /* a duplicate of the duplicate must report what the original reports */
+    hwloc_topology_t C = NULL; int rc2 = hwloc_topology_dup(&C, *Bp);
+    if (rc2 < 0) printf("dupdup rc=-1 errno=%s\n", hwv_errno_class(errno));
+    else { char *oa = hwv_observe_str(A, 1), *oc = hwv_observe_str(C, 1);
+      if (!strcmp(oa, oc)) printf("dupdup same\n"); else { fputs("dupdup DIFF", stdout); hwv_first_diff(stdout, oa, oc); fputc('\n', stdout); }
+      free(oa); free(oc); hwloc_topology_destroy(C); } }
   print_uninit(A);
   print_firstq(A);
   print_obscmp(A, *Bp);
